@@ -352,8 +352,62 @@ def d5_inversion(chk: Check) -> None:
                          "the (matched XOR inverted) test")
 
 
+def d6_every_candidate_judged(chk: Check) -> None:
+    prog = chk.prog
+    chk.rule("C12-D6", "every child enumerated by the search handler is "
+             "judged by a (matched XOR inverted) test on every path through "
+             "its iteration: no candidate is dropped from both the result "
+             "and its complement", floor=3)
+    fi = prog.func("Processor._get_nodes_by_search")
+    data = fi.params()[1]
+    for loop, child, ok in inversion.unjudged_loops(fi, data):
+        text = "for {} in {}".format(src(loop.target), src(loop.iter))
+        if ok:
+            chk.ok("C12-D6", fi, loop, text,
+                   "`{}` reaches a match/inversion test on every path"
+                   .format(child))
+        else:
+            chk.fail("C12-D6", fi, loop, text,
+                     "some path through the iteration leaves without "
+                     "judging `{}`: the element is in neither the plain nor "
+                     "the inverted result".format(child))
+
+
+def d7_all_equal_keys(chk: Check) -> None:
+    """Equality is typed: several keys / elements can equal one term
+    (true, "True", "TRUE"; 80, "80").  The search handler therefore never
+    stops at the first hit, and never decides on a raw comparison result
+    without the inversion flag."""
+    prog = chk.prog
+    chk.rule("C12-D7", "the search handler enumerates all children (no "
+             "early exit from a child loop) and every test that reads a "
+             "comparison result also reads the inversion flag", floor=4)
+    fi = prog.func("Processor._get_nodes_by_search")
+    data = fi.params()[1]
+    for loop, exits in inversion.exhausting_loops(fi, data):
+        text = "for {} in {}".format(src(loop.target), src(loop.iter)[:30])
+        if exits:
+            chk.fail("C12-D7", fi, exits[0], text,
+                     "early exit at line {}: later children equal to the "
+                     "term under the typed comparison are in neither the "
+                     "plain nor (for an inverted search) the complementary "
+                     "result".format(exits[0].lineno))
+        else:
+            chk.ok("C12-D7", fi, loop, text, "runs to exhaustion")
+    lone = inversion.lone_match_tests(fi)
+    for n in lone:
+        chk.fail("C12-D7", fi, n, "if " + src(n.test)[:60],
+                 "decides on the comparison result without the inversion "
+                 "flag")
+    if not lone:
+        chk.ok("C12-D7", fi, fi.node, "tests reading a comparison result",
+               "all read the inversion flag too")
+
+
 def run(chk: Check) -> None:
     d1_table(chk)
     d3_typed_value(chk)
     d4_no_raise(chk)
     d5_inversion(chk)
+    d6_every_candidate_judged(chk)
+    d7_all_equal_keys(chk)
